@@ -562,7 +562,7 @@ class ST:
         if dim is None:
             tot = 0
             for n in self.a.reshape(-1):
-                tot = n + tot if not isinstance(tot, int) else n
+                tot = tot + n if not isinstance(tot, int) else n
             if isinstance(tot, int):
                 tot = Node.const(0.0)
             return ST(np.array(tot, dtype=object))
@@ -703,7 +703,7 @@ _TORCH_FUNCS = {
     'max': _t_max, 'where': _t_where, 'repeat_interleave': _t_repeat_interleave,
     'abs': lambda x: _as_st(x).abs(), 'sqrt': lambda x: _as_st(x).sqrt(),
     'as_strided': lambda x, *a, **k: x,
-    'isnan': lambda x: False, 'any': lambda x: False,
+    'isnan': lambda x: _t_zeros_like(x), 'any': lambda x, *a, **k: False,
     'add': _binop('__add__'), '__add__': _binop('__add__'), '__radd__': _binop('__radd__'),
     'sub': _binop('__sub__'), '__sub__': _binop('__sub__'), '__rsub__': _binop('__rsub__'),
     'mul': _binop('__mul__'), '__mul__': _binop('__mul__'), '__rmul__': _binop('__rmul__'),
